@@ -794,9 +794,9 @@ Proof.
   unfold norm_q. split.
   - intros H.
     assert (E : Qred p = Qred q).
-    { destruct (Qred p) as [a b] eqn:Ep, (Qred q) as [c d] eqn:Eq. simpl in H.
+    { destruct (Qred p) as [a b] eqn:Ep, (Qred q) as [c d] eqn:Eq. cbn [Qnum Qden] in H.
       destruct (Z.pos b =? 1)%Z eqn:B, (Z.pos d =? 1)%Z eqn:D; inversion H; subst.
-      - apply Z.eqb_eq in B, D. inversion B; inversion D; subst. reflexivity.
+      - apply Z.eqb_eq in B, D. inversion B; inversion D; subst. inversion H; subst. reflexivity.
       - reflexivity. }
     rewrite <- (Qred_correct p), <- (Qred_correct q), E. reflexivity.
   - intros H. now rewrite (Qred_complete p q H).
@@ -816,40 +816,44 @@ Proof.
   assert (R : forall x y : pval, (x = y <-> key_eqb a b = true) -> pval_eqb x y = key_eqb a b).
   { intros x y H. destruct (key_eqb a b); [apply pval_eqb_eq; now apply H|].
     apply pval_eqb_neq. intros E. apply H in E. discriminate. }
-  assert (ZQ : forall z, norm_q (inject_Z z) = VInt z) by (intros z; reflexivity).
+  assert (NI : forall x p, norm_q x <> VStr [(-2)%Z; p]).
+  { intros x p E. unfold norm_q in E. destruct (Z.pos (Qden (Qred x)) =? 1)%Z; inversion E. }
   apply R. destruct a as [z|p|pa|s], b as [z'|p'|pb|s']; unfold key_eqb; simpl tnum; cbn [norm].
-  - rewrite <- !ZQ, norm_q_inj. symmetry. apply Qeq_bool_iff.
-  - rewrite <- ZQ, norm_q_inj. symmetry. apply Qeq_bool_iff.
-  - split; [unfold norm_q; discriminate|discriminate].
-  - split; [discriminate|discriminate].
-  - rewrite <- ZQ, norm_q_inj. symmetry. apply Qeq_bool_iff.
   - rewrite norm_q_inj. symmetry. apply Qeq_bool_iff.
-  - split; [|discriminate]. intros E. unfold norm_q in E. destruct (Z.pos (Qden (Qred p)) =? 1)%Z; inversion E.
-  - split; [|discriminate]. intros E. exfalso. exact (norm_q_not_str p s' Wb E).
-  - split; [discriminate|discriminate].
-  - split; [|discriminate]. intros E. unfold norm_q in E. destruct (Z.pos (Qden (Qred p')) =? 1)%Z; inversion E.
+  - rewrite norm_q_inj. symmetry. apply Qeq_bool_iff.
+  - split; [intros E; exfalso; exact (NI _ _ E)|discriminate].
+  - split; [intros E; exfalso; exact (norm_q_not_str _ s' Wb E)|discriminate].
+  - rewrite norm_q_inj. symmetry. apply Qeq_bool_iff.
+  - rewrite norm_q_inj. symmetry. apply Qeq_bool_iff.
+  - split; [intros E; exfalso; exact (NI _ _ E)|discriminate].
+  - split; [intros E; exfalso; exact (norm_q_not_str _ s' Wb E)|discriminate].
+  - split; [intros E; exfalso; symmetry in E; exact (NI _ _ E)|discriminate].
+  - split; [intros E; exfalso; symmetry in E; exact (NI _ _ E)|discriminate].
   - split.
     + intros E. inversion E as [E']. destruct pa, pb; try reflexivity; discriminate.
     + intros E. destruct pa, pb; try reflexivity; discriminate.
   - split; [|discriminate]. intros E. inversion E; subst. simpl in Wb. inversion Wb; subst. lia.
-  - split; [discriminate|discriminate].
-  - split; [|discriminate]. intros E. exfalso. symmetry in E. exact (norm_q_not_str p' s Wa E).
+  - split; [intros E; exfalso; symmetry in E; exact (norm_q_not_str _ s Wa E)|discriminate].
+  - split; [intros E; exfalso; symmetry in E; exact (norm_q_not_str _ s Wa E)|discriminate].
   - split; [|discriminate]. intros E. inversion E; subst. simpl in Wa. inversion Wa; subst. lia.
   - rewrite str_eqb_eq. split; [intros E; now inversion E|intros ->; reflexivity].
 Qed.
 
 (* the categorical mapper on typed keys IS the canonical cell of C01 on the normalised values:
    `canon_cat` is derived for every mixture of value types, not assumed *)
+Lemma typed_find_is_find_index cats v :
+  Forall wf_tval cats -> wf_tval v -> typed_find cats v = find_index (map norm cats) (norm v).
+Proof.
+  intros Wc Wv. induction Wc as [|c0 r W0 Wr IH]; simpl; [reflexivity|].
+  rewrite (norm_reflects_key_equality c0 v W0 Wv), IH. reflexivity.
+Qed.
+
 Theorem typed_merge_is_canon_cat cats c :
   Forall wf_tval cats -> (forall v, c = Some v -> wf_tval v) ->
   [SInt (typed_cat_cell cats c)] = canon_cat (map norm cats) (option_map norm c).
 Proof.
-  intros Wc Wv. destruct c as [v|]; [|reflexivity]. simpl. unfold canon_cat, index_of. do 2 f_equal.
-  specialize (Wv v eq_refl).
-  induction Wc as [|c0 r W0 Wr IH]; simpl; [reflexivity|].
-  rewrite (norm_reflects_key_equality c0 v W0 Wv). destruct (key_eqb c0 v); [reflexivity|].
-  destruct (typed_find r v), (find_index (map norm r) (norm v)); simpl in *; try congruence.
-  inversion IH as [E]. apply Nat2Z.inj in E. now subst.
+  intros Wc Wv. destruct c as [v|]; [|reflexivity]. simpl. unfold canon_cat, index_of.
+  rewrite (typed_find_is_find_index cats v Wc (Wv v eq_refl)). reflexivity.
 Qed.
 
 (* neighbours of the fitted categories *)
